@@ -173,6 +173,9 @@ func genConcStore(t *rapid.T, cfg concGenCfg, task, seq int) Store {
 	default:
 		st.Val = Value{B: uint64(int64(rapid.IntRange(-3, 9).Draw(t, "d")))}
 	}
+	if rapid.IntRange(0, 3).Draw(t, "via-accessor") == 0 {
+		st.Via = ViaTxn // txn.X(col).Set/Merge at the cursor instead of the Row setter
+	}
 	return st
 }
 
@@ -232,6 +235,10 @@ func genConcProgram(t *rapid.T, init *concInit, cfg concGenCfg) *concProgram {
 			}
 			if cfg.Aborts && rapid.IntRange(0, map[bool]int{false: 5, true: 1}[cfg.AbortHeavy]).Draw(t, "abort") == 0 {
 				spec.FailAt = len(spec.Steps) - 1 // rolled back: nothing of it may apply, be emitted or stay reserved
+			}
+			if spec.FailAt < 0 && rapid.IntRange(0, 3).Draw(t, "tail-accessor") == 0 {
+				// the body ends by obtaining a column accessor that it only reads: an update buffer that stays empty
+				spec.Touch = []int{rapid.SampledFrom([]int{ccA, ccM, ccS, ccX}).Draw(t, "tail-accessor-col")}
 			}
 			txns = append(txns, spec)
 			yields = append(yields, ys[:len(spec.Steps)])
